@@ -12,7 +12,7 @@ import (
 )
 
 func init() {
-	register("C04", c04NoBody, func(e *Env) { streamFraming(e, "C04.framing", "pkg/protocol/http1/resp") }, c04Writer, c04Excl, func(e *Env) { serveLoop(e, "C04") }, c04Fresh, c13Alias, c13WriterReset, c13CopyNode, c04Slots, c17Fill, c05Retain, c09Pools, c04OwnedLen, c04ReadCommit)
+	register("C04", c04NoBody, func(e *Env) { streamFraming(e, "C04.framing", "pkg/protocol/http1/resp") }, c04Writer, c04Excl, func(e *Env) { serveLoop(e, "C04") }, c04Fresh, c13Alias, c13WriterReset, c13CopyNode, c04Slots, c17Fill, c05Retain, c09Pools, c04OwnedLen, c04ReadCommit, c04ReadFromEOF, c04EmptyChunk)
 }
 
 const pkgResp = Mod + "/pkg/protocol/http1/resp"
